@@ -445,6 +445,68 @@ func c13InPlaceAndNested(r *Run, n, hist int) {
 	nested := []string{"any a.b.c as x { x.P == 1 and x.Q == 1 }", `any "/a/b/c" as x { x.P == 1 and x.Q == 1 }`, "any a.b.c as _, x { x.P == 1 and x.Q == 1 }", "any a.b.c as i, x { x.P == 1 and x.Q == 1 }", "all a.b.c as x { x.P != 1 or x.Q != 1 }",
 		"any l as x { x.P == 1 and x.Q == 1 }", "any a.l as x { x.P == 1 and x.Q == 1 }", "any a.b.d.e as x { x.P == 1 and x.Q == 1 }", "any m as k, v { v.P == 1 and v.Q == 1 }", "any a.b.c as x { any a.b.c as y { x.P == 1 and y.Q == 1 and x.Q == 1 } }",
 		"a.b.c.0.P == 1 and a.b.c.0.Q == 1", "any a.b.c as x { x.P == 1 } and any a.b.c as x { x.Q == 2 }"}
+	// collections below 1..17 path segments (the capacity a slice of parts grows to depends on how it was built)
+	deepDoc := func(n int, ps, qs []int) (interface{}, string) {
+		var l []interface{}
+		for i := range ps {
+			l = append(l, map[string]interface{}{"P": ps[i], "Q": qs[i]})
+		}
+		var cur interface{} = l
+		var parts []string
+		for i := n; i >= 1; i-- {
+			k := fmt.Sprintf("s%d", i)
+			cur = map[string]interface{}{k: cur}
+			parts = append([]string{k}, parts...)
+		}
+		return cur, strings.Join(parts, ".")
+	}
+	for n := 1; n <= 17; n++ {
+		for _, form := range []string{"any %s as x { x.P == 1 and x.Q == 1 }", `any "/%s" as _, x { x.P == 1 and x.Q == 1 }`, "all %s as i, x { x.P != 1 or x.Q != 1 }"} {
+			for pi := 0; pi < len(pats3)*len(pats3); pi++ {
+				pa, pb := pats3[pi%len(pats3)], pats3[pi/len(pats3)]
+				d1, path := deepDoc(n, pa[0], pa[1])
+				d2, _ := deepDoc(n, pb[0], pb[1])
+				if strings.Contains(form, `"/`) {
+					path = strings.ReplaceAll(path, ".", "/")
+				}
+				e := fmt.Sprintf(form, path)
+				var ev *bexpr.Evaluator
+				depth, entries := 0, 0
+				var innerOut []string
+				hook := func(v reflect.Value) reflect.Value {
+					if depth == 0 && entries < 4 {
+						depth++
+						entries++
+						innerOut = append(innerOut, evalObs(ev, d2))
+						depth--
+					}
+					return v
+				}
+				var err error
+				ev, err = bexpr.CreateEvaluator(e, bexpr.WithHookFn(hook))
+				if err != nil {
+					continue
+				}
+				snap0 := treeSnapshot(ev.VerifAST())
+				o := evalObs(ev, d1)
+				want1, want2 := exprObs(e, d1), exprObs(e, d2)
+				r.Evaluations++
+				r.Seen(fmt.Sprintf("nested-calls-depth|%d|%s|%s", n, form, o))
+				c := map[string]interface{}{"expression": e, "datum": describe(d1), "datum_of_the_inner_calls": describe(d2)}
+				if o != want1 {
+					r.Violate("history-dependent", fmt.Sprintf("nested-calls-depth|%d|%s", n, form), c, "a call during which other calls ran on the same evaluator returned "+o+", undisturbed "+want1)
+				}
+				for _, io := range innerOut {
+					if io != want2 {
+						r.Violate("history-dependent", fmt.Sprintf("nested-calls-depth-inner|%d|%s", n, form), c, "a call made while another was under way returned "+io+", alone "+want2)
+					}
+				}
+				if s := treeSnapshot(ev.VerifAST()); s != snap0 {
+					r.Violate("tree-modified", fmt.Sprintf("cap|%d|%s", n, form), c, "memory of the syntax tree changed: "+truncate(snap0, 200)+" -> "+truncate(s, 200))
+				}
+			}
+		}
+	}
 	for ni := 0; ni < len(nested)*len(pats3)*len(pats3); ni++ {
 		e := nested[ni%len(nested)]
 		pa, pb := pats3[(ni/len(nested))%len(pats3)], pats3[ni/len(nested)/len(pats3)]
@@ -704,7 +766,7 @@ func c01Sizes(r *Run) {
 		m := map[string]interface{}{"expression": truncate(e, 300), "datum": "see the family " + stream, "datum_type": fmt.Sprintf("%T", d)}
 		r.Model(c.cmd(), o, m)
 	}
-	for _, n := range []int{255, 256, 257, 300, 1000, 65535, 65536, 65537} {
+	for _, n := range []int{7, 8, 9, 16, 17, 32, 33, 64, 65, 127, 128, 129, 255, 256, 257, 300, 1000, 65535, 65536, 65537} {
 		if r.Tier != "thorough" && n > 1000 && n != 65537 {
 			continue
 		}
